@@ -33,8 +33,9 @@ Definition kw_ok (c : bytes * bool * bool * bool) : bool :=
 Definition check_kw := mismatches kw_ok.
 
 (* printer: (minify-whitespace, forbidIn, statement start, expression tree, bytes printed by js_printer.Print):
-   an expression statement without its terminator (forbidIn = false, statement start = true), or the
-   initialiser of a for loop without the loop around it (forbidIn = true, statement start = false) *)
+   an expression statement without its terminator (forbidIn = false), or the initialiser of a for loop
+   without the loop around it (forbidIn = true); both are printed with the start flag on, and are read back
+   with the two-token restriction "let [" of 14.5 / 14.7.4 *)
 Definition print_ok (c : bool * bool * bool * expr * bytes) : bool :=
   let '(mw, fi, ss, e, out) := c in zlist_eqb (print_expr mw fi ss e) out.
 Definition check_print := mismatches print_ok.
@@ -72,5 +73,6 @@ Fixpoint expr_eqb (a b : expr) : bool :=
   end.
 Definition reparse_ok (c : bool * bool * bool * expr * bytes) : bool :=
   let '(_, fi, ss, e, out) := c in
-  match (if ss then parse_stmt_text out else parse_text fi out) with Some e' => expr_eqb e' (norm e) | None => false end.
+  match (match lex out with Some ts => if ss then parse_start fi ts else parse fi ts | None => None end)
+  with Some e' => expr_eqb e' (norm e) | None => false end.
 Definition check_reparse := mismatches reparse_ok.
